@@ -274,6 +274,18 @@ func Corpus(e *Env) []Case {
 			add(fmt.Sprintf("blocktxn-repeated-tx-%d", k), "blocktxn", "cv2", cat(hash.Hash[:], vint(uint64(k)), body), Msg{"cmpctblock", H(cm)})
 		}
 	}
+	// a collector answered with a transaction it did not ask for: the handler leaves silently (no penalty) -
+	// the block's in-progress count must be given back (Run stream: checked after the connection has ended)
+	if sp := e.NextSpare(); sp != nil {
+		cb := blockTxs(sp)[0]
+		hash := btc.NewSha2Hash(sp[:80])
+		other := blockTxs(e.Blocks[104])[1]
+		cm := cmpctMsg(sp, 21, vint(1), [][]byte{{1, 2, 3, 4, 5, 6}}, vint(1), []prefilled{{vint(0), cb}})
+		bt := cat(hash.Hash[:], vint(1), other)
+		add("W:blocktxn-inprogress-leak", "blocktxn", "cv2", bt, Msg{"cmpctblock", H(cm)})
+		add("W:blocktxn-inprogress-leak-x3", "ping", "cv2", make([]byte, 8), Msg{"cmpctblock", H(cm)}, Msg{"blocktxn", H(bt)},
+			Msg{"cmpctblock", H(cm)}, Msg{"blocktxn", H(bt)}, Msg{"cmpctblock", H(cm)}, Msg{"blocktxn", H(bt)})
+	}
 	if sp := e.NextSpare(); sp != nil {
 		cb := blockTxs(sp)[0]
 		sid := shortID(sp, 4, dupTx().WTxID().Hash[:])
@@ -316,6 +328,20 @@ func Corpus(e *Env) []Case {
 	add("getmp-auth-0", "getmp", "auth", vint(0))
 	add("getmp-auth-short", "getmp", "auth", cat(vint(3), make([]byte, 17)))
 	add("getmp-auth-empty", "getmp", "auth", nil)
+	// ---- authack: unsigned (the witness of the Run `return` leak: the connection must end through Run's
+	//      tear-down), signed (through the real xauth key exchange in the Run stream)
+	add("W:authack-unsigned", "authack", "", nil)
+	add("W:authack-unsigned-1", "authack", "", []byte{1})
+	add("W:authack-unsigned-enc", "authack", "enc", []byte{1})
+	add("W:authack-unsigned-1024", "authack", "", make([]byte, 1024))
+	add("authack-signed-0", "authack", "trusted", nil)
+	add("authack-signed-synced", "authack", "trusted", []byte{1})
+	add("authack-signed-notsynced", "authack", "trusted", []byte{0, 9})
+	add("authack-before-version", "authack", "nover", []byte{1})
+	add("authack-then-ping", "ping", "", make([]byte, 8), Msg{"authack", "01"})
+	add("getmp-trusted", "getmp", "trusted", cat(vint(1), make([]byte, 8)))
+	add("tx-trusted", "tx", "trusted", txs[1])
+	add("ping-enc", "ping", "enc", make([]byte, 8))
 	add("getmpdone", "getmpdone", "", []byte{1})
 	add("getaddr", "getaddr", "", nil)
 	add("getaddr-twice", "getaddr", "", nil, Msg{"getaddr", ""})
